@@ -204,7 +204,7 @@ func (l *Lexer) identifier() Token {
 func (l *Lexer) number() Token {
 	for !l.atEnd() {
 		r := rune(l.peek())
-		if unicode.IsDigit(r) || r == '-' || r == '.' {
+		if unicode.IsDigit(r) || r == '.' {
 			l.advance()
 		} else {
 			break
